@@ -191,7 +191,7 @@ class ComposedStream(Stream):
         return ES.composed_term(case, obs)
 
     def show_term(self, case, obs):
-        tops = list(case["forms"]) + list(case["direct"])
+        tops = ES.composed_tops(case)
         return "[" + "; ".join(ES.c_tree(case, t) for t in tops) + "]"
 
     def shrink(self, case):
@@ -200,13 +200,13 @@ class ComposedStream(Stream):
     def key(self, case, obs):
         if not any(obs["outs"]):
             return None
-        return json.dumps([case["streams"], case["forms"], case["direct"], case["sched"]])
+        return json.dumps([case["streams"], case["forms"], case["direct"], case.get("shared"), case["sched"]])
 
     def labels(self, case, obs):
-        nc = len(case["forms"]) + len(case["direct"])
-        depth = max((2 if any(not isinstance(c, int) for c in t[1:]) else 1) for t in case["forms"])
+        nc = len(ES.composed_tops(case))
+        depth = max([(2 if any(not isinstance(c, int) for c in t[1:]) else 1) for t in case["forms"]] + [1])
         users = {}
-        for t in case["forms"]:
+        for t in list(case["forms"]) + ES.shared_trees(case):
             for g in set(ES.tree_leaves(t)):
                 users[g] = users.get(g, 0) + 1
         for g in case["direct"]:
@@ -217,14 +217,24 @@ class ComposedStream(Stream):
             if a[0] == "s":
                 sent[a[1]] += 1
                 lead = max(lead, max(sent) - min(sent))
-        return [f"consumers={nc}", f"levels={depth}", f"max_users_of_one_input={max(users.values())}",
+        sh = case.get("shared")
+        extra = []
+        if sh:
+            extra.append(f"shared_builder_engines={len(sh['exts'])}")
+            if sum(1 for e in sh["exts"] if not e) >= 2:
+                extra.append("same_builder_built_twice")
+            if any(not e for e in sh["exts"]) and any(sh["exts"]):
+                extra.append("builder_built_and_extended")
+            if len(set(sh["nz"])) > 1:
+                extra.append("nz_and_non_nz_builds")
+        return extra + [f"consumers={nc}", f"levels={depth}", f"max_users_of_one_input={max(users.values())}",
                 "direct_reader" if case["direct"] else "no_direct_reader",
                 f"max_lead_between_inputs={'<3' if lead < 3 else '3-9' if lead < 10 else '10+'}",
                 f"outputs={'0' if not any(obs['outs']) else 'some'}"]
 
     def oracle(self, case, obs):
         probs = []
-        tops = list(case["forms"]) + list(case["direct"])
+        tops = ES.composed_tops(case)
         for i, (t, out) in enumerate(zip(tops, obs["outs"])):
             ids = sorted(set(ES.tree_leaves(t)))
             for p in ES.judge_sum_outputs(case, ids, [(o[0], o[1]) for o in out]):
